@@ -95,12 +95,31 @@ impl TextDocument {
     }
 
     fn position_to_index(&self, position: Position) -> usize {
-        let line_offset = self
+        let line = position.line as usize;
+        let Some(&line_offset) = self.line_offsets.get(line) else {
+            // Past the last line: keep the distance so that `validate_range`
+            // rejects anything but the very end of the document.
+            return self.content.len() + position.character as usize;
+        };
+        let line_end = self
             .line_offsets
-            .get(position.line as usize)
+            .get(line + 1)
             .copied()
             .unwrap_or(self.content.len());
-        line_offset + position.character as usize
+        let line_text = &self.content[line_offset..line_end];
+        let line_text = line_text.strip_suffix('\n').unwrap_or(line_text);
+        let line_text = line_text.strip_suffix('\r').unwrap_or(line_text);
+        // `Position::character` counts UTF-16 code units (the server negotiates no
+        // other position encoding), while `content` is indexed in UTF-8 bytes.
+        let mut units = position.character as usize;
+        for (index, c) in line_text.char_indices() {
+            if units == 0 {
+                return line_offset + index;
+            }
+            units = units.saturating_sub(c.len_utf16());
+        }
+        // A character offset past the end of the line defaults to the line length.
+        line_offset + line_text.len()
     }
 
     fn calculate_line_offsets(text: &str) -> Vec<usize> {
